@@ -3,6 +3,7 @@ CONSTANTS
   NR = 1
   Form = "one"
   Alpha = "one1"
+  XLess = {}
   Export = TRUE
 SPECIFICATION Spec
 INVARIANT TypeOK
